@@ -2,7 +2,7 @@
 From Coq Require Import Arith NArith List Bool Permutation.
 From Coq.Strings Require Import Byte.
 From LV Require Import Lib.Bytes Model.C06 Proofs.C06_Num Proofs.C06_Base58 Proofs.C06_Keys Proofs.C06_Ckd
-  Proofs.C06_Gap Proofs.C06_Mnemonic Proofs.C06_Normalize.
+  Proofs.C06_Gap Proofs.C06_Mnemonic Proofs.C06_Normalize Proofs.C06_Shared.
 Import ListNotations.
 Local Open Scope N_scope.
 
@@ -61,6 +61,14 @@ Theorem C06_base58check_roundtrip : forall (dsha : bytes -> bytes) p c r,
 Proof. exact b58check_roundtrip. Qed.
 Print Assumptions C06_base58check_roundtrip.
 
+(* In fact every payload at all -- empty, or beginning with zero bytes -- round-trips as long as payload ++ checksum
+   is not the all-zero string (the Base58 quirk is unreachable through Base58Check otherwise). *)
+Theorem C06_base58check_roundtrip_general : forall (dsha : bytes -> bytes) p,
+  (exists c, In c (p ++ checksum dsha p) /\ c <> x00) -> (4 <= length (dsha p))%nat ->
+  exists t, b58_encode_check dsha p = Ok t /\ b58_decode_check dsha t = Ok p.
+Proof. exact b58check_roundtrip_general. Qed.
+Print Assumptions C06_base58check_roundtrip_general.
+
 (* Checksum errors are rejected: a result is returned only when the last four decoded bytes are the
    first four bytes of the hash of the rest (no assumption on the hash). *)
 Theorem C06_base58check_rejects : forall (dsha : bytes -> bytes) t p, b58_decode_check dsha t = Ok p ->
@@ -102,7 +110,8 @@ Proof. exact xk_parse_sound. Qed.
 Print Assumptions C06_extkey_parse_sound.
 
 (* String form (Base58Check of the 78 bytes).  The key object built by from_extended_key_string keeps every
-   field except the parent fingerprint (it has no parent object): [xk_forget_parent]. *)
+   field except the parent fingerprint (it has no parent object; known finding
+   {"op":"xparse","finding":"parent-fingerprint-dropped"}): [xk_forget_parent]. *)
 Theorem C06_extkey_string_roundtrip : forall (ver_pub ver_priv : bytes) (pub_valid : bytes -> bool),
   length ver_pub = 4%nat -> length ver_priv = 4%nat -> ver_pub <> ver_priv ->
   forall dsha : bytes -> bytes, hd x00 ver_pub <> x00 -> hd x00 ver_priv <> x00 ->
@@ -121,6 +130,17 @@ Theorem C06_extkey_string_sound : forall (ver_pub ver_priv : bytes) (pub_valid :
              k = xk_forget_parent k0.
 Proof. exact xk_of_string_sound. Qed.
 Print Assumptions C06_extkey_string_sound.
+
+(* decode -> encode gives the string back exactly for strings with a zero parent fingerprint (master keys, the only
+   keys LBRY stores). *)
+Theorem C06_extkey_string_decode_encode_master : forall (ver_pub ver_priv : bytes) (pub_valid : bytes -> bool),
+  length ver_pub = 4%nat -> length ver_priv = 4%nat -> ver_pub <> ver_priv ->
+  forall (dsha : bytes -> bytes) t k, xk_of_string ver_pub ver_priv pub_valid dsha t = Ok k ->
+  (exists c, In c t /\ c <> one_char) ->
+  (forall k0, b58_decode_check dsha t = Ok (xk_serialize ver_pub ver_priv k0) -> xk_pfp k0 = zero4) ->
+  xk_to_string ver_pub ver_priv dsha k = Ok t.
+Proof. exact xk_string_decode_encode_master. Qed.
+Print Assumptions C06_extkey_string_decode_encode_master.
 
 (* For a master key (zero parent fingerprint) parsing and serialising again gives the same 78 bytes. *)
 Theorem C06_extkey_reserialize_master : forall (ver_pub ver_priv : bytes) (pub_valid : bytes -> bool),
@@ -311,6 +331,38 @@ Theorem C06_address_records_sorted : forall t : list row,
 Proof. exact address_records_spec. Qed.
 Print Assumptions C06_address_records_sorted.
 
+(* One ledger database, a single-address account and a deterministic account of the SAME mnemonic (same account id,
+   both on chain 0).  The code as it is ([flt = false], known findings {"op":"generator_switch",...}): both managers look
+   at the same rows; once the single-address account has stored its row first, the first chain-0 record of that account
+   id -- the deterministic account's "first receiving address" -- is the account key's own address whatever happens
+   afterwards; and when the deterministic account came first, the single-address account never stores its key and
+   lists the deterministic chain. *)
+Theorem C06_shared_database_as_is_single_first : forall (addr_of : N -> bytes) (master_addr : bytes) (ops : list sop) single,
+  hd_error (map r_addr (manager_view false single (srun addr_of master_addr false (SSingleEnsure :: ops)))) = Some master_addr.
+Proof. exact shared_as_is_single_first. Qed.
+Print Assumptions C06_shared_database_as_is_single_first.
+
+Theorem C06_shared_database_as_is_hd_first : forall (addr_of : N -> bytes) (master_addr : bytes) (g : nat), (0 < g)%nat ->
+  manager_view false true (srun addr_of master_addr false [SHd (GEnsure g); SSingleEnsure])
+  = manager_view false false (srun addr_of master_addr false [SHd (GEnsure g)]) /\
+  manager_view false false (srun addr_of master_addr false [SHd (GEnsure g)]) = fst (ensure_gap addr_of g []).
+Proof. exact shared_as_is_hd_first. Qed.
+Print Assumptions C06_shared_database_as_is_hd_first.
+
+(* The design that would satisfy the property's clause on this history ([flt = true]: each manager filters the rows
+   it looks at by its own key depth) -- NOT what the code does: the deterministic account's receiving chain is then
+   exactly the chain it would have alone, and the single-address account lists only the account key's address. *)
+Theorem C06_shared_database_with_depth_filter_hd_chain : forall (addr_of : N -> bytes) (master_addr : bytes) (ops : list sop),
+  rows_of false (srun addr_of master_addr true ops) = grun addr_of (hd_ops ops).
+Proof. exact shared_hd_chain_unaffected. Qed.
+Print Assumptions C06_shared_database_with_depth_filter_hd_chain.
+
+Theorem C06_shared_database_with_depth_filter_single_chain : forall (addr_of : N -> bytes) (master_addr : bytes) (ops : list sop),
+  map r_addr (rows_of true (srun addr_of master_addr true ops)) = [] \/
+  map r_addr (rows_of true (srun addr_of master_addr true ops)) = [master_addr].
+Proof. exact shared_single_chain. Qed.
+Print Assumptions C06_shared_database_with_depth_filter_single_chain.
+
 (* ======================================================================== mnemonic *)
 
 (* For every word list without duplicates, with at least two words, none empty or containing whitespace:
@@ -410,4 +462,26 @@ Proof. vm_compute. reflexivity. Qed.
    Latin letter stays: 0x4E00 ' ' 0x4E8C ' ' 'a' *)
 Example C06_ex_normalize :
   (collapse_ws [65; 12288; 32; 66], rm_cjk_spaces None [19968; 32; 20108; 32; 97]) = ([65; 32; 66], [19968; 20108; 32; 97]).
+Proof. vm_compute. reflexivity. Qed.
+
+(* the known finding on a concrete key below the master (parent fingerprint 3442193e, as in BIP32 vector 1 m/0H):
+   the parsed key does not re-serialise to the bytes it was parsed from, only to those bytes with 00000000 *)
+Example C06_fingerprint_dropped_witness :
+  (bytes_eqb (xk_serialize [x04; x88; xb2; x1e] [x04; x88; xad; xe4]
+                (xk_forget_parent (mk_xkey KPub 1 [x34; x42; x19; x3e] 2147483648 (repeat x11 32) (x02 :: repeat x22 32))))
+             (xk_serialize [x04; x88; xb2; x1e] [x04; x88; xad; xe4]
+                (mk_xkey KPub 1 [x34; x42; x19; x3e] 2147483648 (repeat x11 32) (x02 :: repeat x22 32))),
+   res_map xk_pfp (xk_from_extended [x04; x88; xb2; x1e] [x04; x88; xad; xe4] (fun _ => true)
+                     (xk_serialize [x04; x88; xb2; x1e] [x04; x88; xad; xe4]
+                        (mk_xkey KPub 1 [x34; x42; x19; x3e] 2147483648 (repeat x11 32) (x02 :: repeat x22 32)))))
+  = (false, Ok zero4).
+Proof. vm_compute. reflexivity. Qed.
+
+(* the known finding on the shared table: after a single-address account of the same mnemonic, the deterministic
+   account's receiving chain is [account key's address, m/0/1, m/0/2] -- m/0/0 is never generated; with the depth
+   filter it would be [m/0/0, m/0/1, m/0/2] *)
+Example C06_shared_rows_witness :
+  (map r_addr (manager_view false false (srun (fun n => [byte_of_N n]) [xff] false [SSingleEnsure; SHd (GEnsure 3)])),
+   map r_addr (manager_view true false (srun (fun n => [byte_of_N n]) [xff] true [SSingleEnsure; SHd (GEnsure 3)])))
+  = ([[xff]; [x01]; [x02]], [[x00]; [x01]; [x02]]).
 Proof. vm_compute. reflexivity. Qed.
